@@ -1129,7 +1129,30 @@ class BadCatalogue:
         for meth in ('add_fp', 'add_directory', 'add_symlink', 'add_eltorito'):
             for ns in ('iso', 'jol', 'udf'):
                 rows.append(('%s/empty-%s-path' % (meth, ns), meth, ns != 'iso', self.empty_path(meth, ns)))
+        # scalar arguments outside the range of the on-disc field that holds them (appended later: the selector is taken modulo the
+        # number of rows, so only new draws reach them)
+        rows += [
+            ('add_eltorito/load-segment-out-of-range', 'add_eltorito', True, self.boot_bad('boot_load_seg', 70000)),
+            ('add_eltorito/load-size-out-of-range', 'add_eltorito', True, self.boot_bad('boot_load_size', 70000)),
+            ('add_hard_link/old-path-is-a-directory', 'add_hard_link', False, self.link_old_is_dir),
+            ('add_fp/negative-length', 'add_fp', False, self.add_negative_length),
+            ('add_isohybrid/partition-entry-0', 'add_isohybrid', True, self.hyb_bad({'part_entry': 0})),
+            ('add_isohybrid/partition-entry-5', 'add_isohybrid', True, self.hyb_bad({'part_entry': 5})),
+        ]
         return rows
+
+    def link_old_is_dir(self, op):
+        d = self.existing('iso', ('dir',), op)
+        nm, paths = self.fresh(op)
+        kw = {'iso_old_path': d, 'iso_new_path': paths['iso']}
+        if self.m.rr:
+            kw['rr_name'] = nm['rr']
+        return 'add_hard_link', kw
+
+    def add_negative_length(self, op):
+        nm, paths, kw = self.base_add(op, False)
+        kw['__content__'] = (op['n'], -1 - op.get('i', 0) % 3)
+        return 'add_fp', kw
 
     def _root_rr_entry(self, op):
         m = self.m
